@@ -235,6 +235,21 @@ Module EltOrder <: TotalLeBool.
 End EltOrder.
 Module EltSort := Sort EltOrder.
 
+(* a second comparator: the reverse order (descending ids, NULL last) *)
+Module EltOrderDesc <: TotalLeBool.
+  Definition t := elt.
+  Definition leb (a b : t) : bool := EltOrder.leb b a.
+  Theorem leb_total : forall a1 a2, leb a1 a2 = true \/ leb a2 a1 = true.
+  Proof. intros a1 a2. destruct (EltOrder.leb_total a1 a2); auto. Qed.
+End EltOrderDesc.
+Module EltSortDesc := Sort EltOrderDesc.
+
+(* which comparator a sort / search call is given *)
+Inductive cmpsel := Asc | Desc.
+
+Definition sort_by (c : cmpsel) (l : list elt) : list elt :=
+  match c with Asc => EltSort.sort l | Desc => EltSortDesc.sort l end.
+
 Definition elt_leb := EltOrder.leb.
 Definition elt_compare (a b : elt) : comparison :=
   match a, b with
@@ -252,18 +267,24 @@ Fixpoint cell_vals (cs : list cell) : option (list elt) :=
   | Val e :: t => match cell_vals t with Some r => Some (e :: r) | None => None end
   end.
 
-(* array_list_sort with the comparator above: qsort(arr->array, arr->length, …) *)
-Definition al_sort (a : alist) : ares :=
+(* what comparator [c] returns for (k, x) *)
+Definition compare_by (c : cmpsel) (k x : elt) : comparison :=
+  match c with Asc => elt_compare k x | Desc => elt_compare x k end.
+
+(* array_list_sort with comparator [c]: qsort(arr->array, arr->length, …).  The result is a
+   function of the current cells and of [c] alone: the structure has no field that could
+   remember an earlier sort. *)
+Definition al_sort (c : cmpsel) (a : alist) : ares :=
   if alen a >? asize a then AUB
   else match cell_vals (zfirstn (alen a) (slots a)) with
        | None => AUB
        | Some vs =>
-           AOk (mkal (write_cells (slots a) 0 (map Val (EltSort.sort vs))) (alen a) (asize a))
+           AOk (mkal (write_cells (slots a) 0 (map Val (sort_by c vs))) (alen a) (asize a))
                0 [] [mkawr 0 (alen a)]
        end.
 
 (* binary search by halving the list: compares the key with the middle element *)
-Fixpoint bsearch_list (fuel : nat) (l : list elt) (k : elt) : bool :=
+Fixpoint bsearch_list (c : cmpsel) (fuel : nat) (l : list elt) (k : elt) : bool :=
   match fuel with
   | O => false
   | S f =>
@@ -271,21 +292,33 @@ Fixpoint bsearch_list (fuel : nat) (l : list elt) (k : elt) : bool :=
       match zskipn m l with
       | [] => false
       | x :: r =>
-          match elt_compare k x with
+          match compare_by c k x with
           | Eq => true
-          | Lt => bsearch_list f (zfirstn m l) k
-          | Gt => bsearch_list f r k
+          | Lt => bsearch_list c f (zfirstn m l) k
+          | Gt => bsearch_list c f r k
           end
       end
   end.
 
 (* array_list_bsearch: found? *)
-Definition al_bsearch (a : alist) (k : elt) : option bool :=
+Definition al_bsearch (c : cmpsel) (a : alist) (k : elt) : option bool :=
   if alen a >? asize a then None
   else match cell_vals (zfirstn (alen a) (slots a)) with
        | None => None
-       | Some vs => Some (bsearch_list (S (length vs)) vs k)
+       | Some vs => Some (bsearch_list c (S (length vs)) vs k)
        end.
+
+(* An element's value changed in place by the client, e.g.
+   json_object_set_int64(json_object_array_get_idx(arr, i), v): the array is not called at all
+   and the slot keeps the same pointer.  The model identifies an element with the value the
+   comparator reads, so the cell's id becomes [v].  Returns 1, or 0 when the element is NULL
+   (gap or index past the end: json_object_set_int64(NULL, v) does nothing). *)
+Definition al_setval (a : alist) (i v : Z) : ares :=
+  match al_get a i with
+  | GUB => AUB
+  | GOk None => AOk a 0 [] []
+  | GOk (Some _) => AOk (mkal (write_cells (slots a) i [Val (Some v)]) (alen a) (asize a)) 1 [] []
+  end.
 
 (* ---- operations of a history (the state-changing ones) ---- *)
 Inductive alop :=
@@ -294,7 +327,8 @@ Inductive alop :=
 | OInsert (i : Z) (e : elt)
 | ODel (i c : Z)
 | OShrink (n : Z)
-| OSort.
+| OSort (c : cmpsel)
+| OSetVal (i v : Z).
 
 Definition al_step (al : alloc) (a : alist) (o : alop) : ares :=
   match o with
@@ -303,7 +337,8 @@ Definition al_step (al : alloc) (a : alist) (o : alop) : ares :=
   | OInsert i e => al_insert al a i e
   | ODel i c => al_del a i c
   | OShrink n => al_shrink al a n
-  | OSort => al_sort a
+  | OSort c => al_sort c a
+  | OSetVal i v => al_setval a i v
   end.
 
 (* the contents as the drivers print them: the first [alen] cells *)
@@ -330,6 +365,13 @@ Definition sinsert (l : spec) (i : Z) (e : elt) : spec :=
 Definition sdel (l : spec) (i c : Z) : spec := zfirstn i l ++ zskipn (i + c) l.
 Definition sdel_rel (l : spec) (i c : Z) : list Z := nonnull (zfirstn c (zskipn i l)).
 
+(* in-place change of the value of the element at [i] (nothing happens on NULL) *)
+Definition ssetval (l : spec) (i v : Z) : spec :=
+  match sget l i with
+  | Some _ => zfirstn i l ++ [Some v] ++ zskipn (i + 1) l
+  | None => l
+  end.
+
 (* new contents and the elements released, in release order *)
 Definition spec_step (l : spec) (o : alop) : spec * list Z :=
   match o with
@@ -338,7 +380,15 @@ Definition spec_step (l : spec) (o : alop) : spec * list Z :=
   | OInsert i e => (sinsert l i e, if i >=? zlen l then sput_rel l i else [])
   | ODel i c => (sdel l i c, sdel_rel l i c)
   | OShrink _ => (l, [])
-  | OSort => (EltSort.sort l, [])
+  | OSort c => (sort_by c l, [])
+  | OSetVal i v => (ssetval l i v, [])
+  end.
+
+(* the value an accepted operation returns *)
+Definition spec_ret (l : spec) (o : alop) : Z :=
+  match o with
+  | OSetVal i _ => match sget l i with Some _ => 1 | None => 0 end
+  | _ => 0
   end.
 
 (* are the arguments in range?  (the bound on representable lengths is SIZE_MAX / PTR slots) *)
@@ -349,5 +399,5 @@ Definition spec_ok (l : spec) (o : alop) : bool :=
   | OInsert i _ => Z.max i (zlen l) + 1 <=? SIZE_MAX / PTR
   | ODel i c => (i <? zlen l) && (i + c <=? zlen l)
   | OShrink n => n <? SIZE_MAX / PTR - zlen l
-  | OSort => true
+  | OSort _ | OSetVal _ _ => true
   end.
